@@ -540,3 +540,9 @@ def replay(ctx, doc):
     o = _job(tuple([inp["kind"]] + list(inp["args"])))
     print(o)
     return True
+
+
+# somebody else's classes: the documented extension points used the way a third party uses them (props/thirdparty.py)
+from props import thirdparty as _thirdparty  # noqa: E402
+
+correspondence, search, replay = _thirdparty.attach(PID, correspondence, search, replay)
